@@ -123,6 +123,7 @@ type Machine struct {
 	mutexes  map[*Obj]*mutexState
 	subKeys  map[string]*Obj
 	syncMaps map[string]*MapV
+	afterFuncs map[*Obj]*afterFuncState
 	builders map[string]*StrV
 	softViol []*Violation // known findings met on this path (the path continues)
 	spec     bool // speculative (if-conversion) evaluation in progress
@@ -567,6 +568,7 @@ func (m *Machine) resetPath() {
 	m.mutexes = map[*Obj]*mutexState{}
 	m.subKeys = map[string]*Obj{}
 	m.syncMaps = map[string]*MapV{}
+	m.afterFuncs = nil
 	m.builders = map[string]*StrV{}
 	m.raceOn = false
 	if m.funcs == nil {
